@@ -23,6 +23,11 @@ def _interesting(ops):
         if a in ("contract", "contract2", "sort") and any(b in struct for b in seq[i + 1:]):
             s += 1
             break
+    # a compile followed later by a re-ordering of contraction indices (explicit index orders vs cached recipes)
+    for i, a in enumerate(seq):
+        if a in ("contract", "contract2") and "sort" in seq[i + 1:]:
+            s += 1
+            break
     return s
 
 
